@@ -11,6 +11,7 @@ from typing import Any, Callable
 
 from reactivex import abc
 from reactivex.scheduler import CurrentThreadScheduler
+from reactivex.scheduler.scheduleditem import ScheduledItem
 
 from ..catalog import BY_NAME, CATALOG, SUB_AT, Entry, Gen
 from ..vlab import Lab, ProbeObserver
@@ -114,7 +115,8 @@ def build(r: Any, depth: int, clock: str = "num", p_nonconf: float = 0.0, exclud
 
 
 def execute(b: Built, keep: list | None = None, top: ProbeObserver | None = None, as_callbacks: bool = False,
-            trampoline: bool = False, end_children: bool = True, end: float = END) -> ProbeObserver:
+            trampoline: bool = False, end_children: bool = True, end: float = END,
+            after_action: Callable[[int], None] | None = None) -> ProbeObserver:
     lab = b.lab
     o = b.observable(keep)
     top = top or lab.observer("top")
@@ -153,7 +155,26 @@ def execute(b: Built, keep: list | None = None, top: ProbeObserver | None = None
     lab.at(SUB_AT, do_sub)
     if end_children:
         lab.at(CHILD_END, finish_children)
-    lab.run(until=end)
+    if after_action is None:
+        lab.run(until=end)
+        return top
+    # Lab.action_hook runs inside ScheduledItem.invoke, i.e. after the scheduler has already found the item not
+    # cancelled: a dispose made there could never cancel that very item. `after_action(n)` runs when action n is over.
+    real = ScheduledItem.invoke
+
+    def invoke(item: Any) -> None:
+        mine = item.scheduler is lab.ts
+        try:
+            real(item)
+        finally:
+            if mine:
+                after_action(lab.nactions)
+
+    ScheduledItem.invoke = invoke  # type: ignore[method-assign]
+    try:
+        lab.run(until=end)
+    finally:
+        ScheduledItem.invoke = real  # type: ignore[method-assign]
     return top
 
 
